@@ -358,5 +358,54 @@ def rule_r4(ctx) -> RuleResult:
     return rr
 
 
+def rule_r5(ctx) -> RuleResult:
+    """Protected text travels as a cookie character whose meaning is its index in the page's
+    cookie table; strings holding such characters are handed from expand() to parse()/
+    to_html()/Lua and back within a page.  The index keeps its meaning only if the table is
+    append-only for the whole page: (re)assigned in __init__/start_page only, otherwise
+    `.cookies.append(...)`, `rev_ht[...] = ...` and reads."""
+    rr = RuleResult("C15.R5", "the cookie table is append-only between start_page calls", min_instances=6)
+    allowed_assign = {"core.Wtp.__init__", "core.Wtp.start_page"}
+    names = ("cookies", "rev_ht")
+
+    def is_tbl(e):
+        return isinstance(e, ast.Attribute) and e.attr in names and isinstance(e.value, ast.Name) and e.value.id in ("self", "ctx", "wtp")
+
+    for dotted, m, f in ctx.index.all_functions():
+        for n in walk_no_nested(f):
+            tgts = []
+            if isinstance(n, ast.Assign):
+                tgts = n.targets
+            elif isinstance(n, (ast.AugAssign, ast.AnnAssign)):
+                tgts = [n.target] if getattr(n, "value", None) is not None else []
+            elif isinstance(n, ast.Delete):
+                tgts = n.targets
+            for t in tgts:
+                for tt in (t.elts if isinstance(t, (ast.Tuple, ast.List)) else [t]):
+                    if is_tbl(tt):
+                        if dotted in allowed_assign and not isinstance(n, ast.Delete):
+                            rr.ok(dotted, unparse(n)[:60], {"fn": dotted, "stmt": unparse(n)[:60]})
+                        else:
+                            rr.bad(Finding("C15.R5", m.relpath, dotted, unparse(n)[:80],
+                                           "the cookie table is replaced in the middle of a page: cookie characters in text produced earlier "
+                                           "(nowiki text, saved templates/links) now index other entries or none, so protected text is "
+                                           "replaced by unrelated text or dropped", n.lineno))
+                    elif isinstance(tt, ast.Subscript) and is_tbl(tt.value):
+                        if tt.value.attr == "rev_ht" and isinstance(n, ast.Assign):
+                            rr.ok(dotted, unparse(n)[:60], {"fn": dotted, "stmt": unparse(n)[:60]})
+                        else:
+                            rr.bad(Finding("C15.R5", m.relpath, dotted, unparse(n)[:80],
+                                           "an existing cookie table entry is overwritten or deleted", n.lineno))
+            if isinstance(n, ast.Call) and isinstance(n.func, ast.Attribute) and is_tbl(n.func.value):
+                meth = n.func.attr
+                if (n.func.value.attr == "cookies" and meth in ("append", "index", "count", "copy")) or \
+                        (n.func.value.attr == "rev_ht" and meth in ("get", "keys", "values", "items", "copy")):
+                    rr.ok(dotted, unparse(n)[:60], {"fn": dotted, "stmt": unparse(n)[:60]})
+                else:
+                    rr.bad(Finding("C15.R5", m.relpath, dotted, unparse(n)[:80],
+                                   "the cookie table is mutated with .{}(): entries other than the newest are moved or removed".format(meth), n.lineno))
+    return rr
+
+
 def run(ctx) -> list:
-    return [rule_r1(ctx), rule_r2(ctx), rule_r3(ctx), rule_r4(ctx)]
+    return [rule_r1(ctx), rule_r2(ctx), rule_r3(ctx), rule_r4(ctx), rule_r5(ctx)]
